@@ -295,7 +295,7 @@ package queue
 //@ func (*queueDelivery).Commit
 //@   prop C02
 //@   requires qd != nil && qd.q != nil && qd.q.wheel != nil && qd.meta != nil && qd.meta.MsgMeta != nil
-//@   modifies qd.meta, qd.body, gScheduled
+//@   modifies qd.meta, qd.body, gScheduled, gSlotsHeld, gPushed, chanstate()
 //@   ensures gScheduled == old(gScheduled) + 1
 // Recovery: the metadata of an id can be read only when its metadata file exists; a retry is scheduled only for ids
 // whose metadata was read and whose header and body files exist; files are removed only for ids that are not scheduled.
